@@ -101,8 +101,11 @@ def correspondence(ctx, violations, known_hits):
                     violations.append({"kind": "model-vs-implementation", "profile": prof, "tag": tv[ci], "case": cv[ci],
                                        "implementation": la, "model": lb,
                                        "replay_kind": "C03"})
+    cli = cli_flag(ctx, violations)
+    ev += cli["runs"]
     ctx.cleanup()
     return {
+        "flag_on_the_command_line": cli,
         "evaluations": r["evaluations"] + ev, "distinct_nontrivial": len(r["sigs"]) + len(sigs),
         "rule": "assembler: each of push/pop/call/rets in four letter cases x {used, in label position, referenced as a label, as an "
                 "operand, near-miss identifiers, inside comment/string} x flag off/on, plus random programs with/without the "
@@ -111,6 +114,49 @@ def correspondence(ctx, violations, known_hits):
         "asm_outcome_histogram": r["hist"], "vm_outcome_histogram": hist, "samples": samples,
         "mismatches": r["mismatches"] + mism, "profiles": list(profiles),
     }
+
+
+def cli_flag(ctx, violations):
+    """The flag as users give it (the real binary, hooks off): the feature is on exactly when `stack` is among the
+    comma-separated elements of -f / --features, however the list is written; then the extension source checks, compiles to
+    the same bytes and runs, and otherwise it is rejected naming the feature and a reached 0xD word stops with status 1."""
+    import os, clicommon
+    exe = ctx.cli()
+    d = clicommon.fresh_dir(ctx, "cliflag")
+    src = "lea r0 m\npush r0\npop r1\nadd r0 r1 #0\nputs\nhalt\nm .stringz \"ok\"\n"
+    open(os.path.join(d, "s.asm"), "w").write(src)
+    open(os.path.join(d, "raw.asm"), "w").write("add r0 r0 #1\n.fill xD040\nhalt\n")          # a 0xD word reached at run time (PUSH r1)
+    spellings = [(["-f", "stack"], True), (["--features", "stack"], True), (["--features=stack"], True), (["-f", "stack,"], True),
+                 (["-f", ",stack"], True), (["-f", ",,stack"], True), (["-f", "stack,,"], True), (["-f", ",stack,"], True),
+                 (["-f", ""], False), (["-f", ","], False), ([], False)]
+    ref = None
+    runs = bad = 0
+    for flags, on in spellings:
+        out = os.path.join(d, "o%d.lc3" % runs)
+        if os.path.exists(out):
+            os.remove(out)
+        rc_check, so_c, se_c = clicommon.run_cli(exe, ["check", "s.asm"] + flags, d)
+        rc_comp, _, _ = clicommon.run_cli(exe, ["compile", "s.asm", out] + flags, d)
+        rc_run, so_r, se_r = clicommon.run_cli(exe, ["run", "s.asm", "--minimal"] + flags, d)
+        rc_raw, so_w, se_w = clicommon.run_cli(exe, ["run", "raw.asm", "--minimal"] + flags, d)
+        data = open(out, "rb").read() if os.path.exists(out) else None
+        runs += 4
+        if on and ref is None and data is not None:
+            ref = data
+        text = (so_c + se_c).decode("utf-8", "replace").lower()
+        if on:
+            good = rc_check == 0 and rc_comp == 0 and data is not None and data == ref and rc_run == 0 and "ok" in so_r.decode("utf-8", "replace") and rc_raw == 0
+        else:
+            good = rc_check != 0 and "stack" in text and rc_comp != 0 and data is None and rc_run != 0 and rc_raw == 1
+        if not good:
+            bad += 1
+            if bad <= 4:
+                violations.append({"kind": "flag-spelling", "flags": flags, "feature_expected_on": on, "check_exit": rc_check,
+                                   "compile_exit": rc_comp, "object_bytes": data.hex() if data else None,
+                                   "reference_bytes": ref.hex() if ref else None, "run_exit": rc_run, "raw_0xD_run_exit": rc_raw,
+                                   "check_output": text[-300:]})
+    return {"runs": runs, "spellings": len(spellings), "mismatches": bad,
+            "rule": "real binary: check / compile / run of an extension source and run of an image reaching a 0xD word, for 11 ways of writing (or not writing) the feature list"}
 
 
 def replay(ctx, payload):
